@@ -111,7 +111,7 @@ fn check(acc: &mut Acc, p: CP, to709: bool, base: u64, px: &[[f32; 3]]) {
 
 pub fn run(tier: Tier) -> Report {
     let mut rep = Report::new("C06");
-    let steps: u64 = tier.pick(25, 250);
+    let steps: u64 = tier.pick(if light() { 25 } else { 50 }, 500);
     let g: Vec<f32> = (0..=steps).map(|i| (-0.5 + 2.5 * i as f64 / steps as f64) as f32).collect();
     let gl = g.len() as u64;
     let total = gl * gl * gl;
